@@ -75,3 +75,68 @@ meta("C13",
      assumptions=["containers have value semantics in the model: aliasing between the two configurations' dicts is "
                   "checked by a separate structural obligation on Config.copy (see evidence)"],
      not_decided=[])
+
+_CLIENT_TB = ["xmlrpc.client.Transport.request: one exchange, records (host, target, body), returns the reply text or raises",
+              "json.dumps/json.loads contracts; uuid4 distinctness"]
+meta("C01",
+     explanation="composition of verified contracts: _request (message text == JSON image of the dump() message with the method "
+                 "name; exactly one exchange; result returned unchanged), the trusted wire, _marshaled_dispatch (registered "
+                 "callable called exactly once with the params; reply carries the translated result and the id).",
+     trusted_base=_CLIENT_TB + _DISP_TB,
+     assumptions=["sockets / http deliver bytes faithfully", "loads(dumps(x)) == N(x): trusted JSON round trip, exercised by the bounded stand-in"],
+     not_decided=["MultiCall result ordering is covered through the server's batch invariant (C03) and a bounded stand-in only"])
+meta("C07",
+     explanation="structural induction on jsonclass.dump/load: element-wise and value-wise clauses with the configuration / class "
+                 "table forwarded at every recursive call; bean fields set from values loaded with the same class table (loop "
+                 "invariant over the ghost bean attribute map).",
+     trusted_base=["jc_dump/jc_load determinism (assumed 'image' clauses)", "_find_fields: assumed contract (class reflection)",
+                   "class constructors return new instances; setattr on a bean records the attribute"],
+     assumptions=["supported shapes: no-argument constructible or custom serialise method; field values of supported types"],
+     not_decided=["behaviour of user-defined __init__/__eq__"])
+meta("C08",
+     explanation="gates: with use_jsonclass off loads(t) is the plain JSON value and nothing is imported/constructed; with it on "
+                 "nothing is loaded unless the name passed the character filter; lemma: the filter built from the real "
+                 "INVALID_MODULE_CHARS leaves s unchanged iff s is in [A-Za-z0-9_.]*.",
+     trusted_base=["re.sub(P, '', s) for a single character class", "__import__ / class call / setattr ghost logging"],
+     assumptions=[], not_decided=[])
+_POOL_TB = ["queue.Queue: linearizable FIFO with unfinished count; content invariant of the pool's queue (sentinel or 4-tuple)",
+            "threading.Event/RLock/Thread/Condition contracts",
+            "thread-modular rely: a counted (active) worker contributes one to __nb_threads (__nb_active_threads)"]
+meta("C09", explanation="per-task protocol: enqueue puts one tuple under the lock; a worker iteration executes the task once and "
+                        "calls task_done once on every path (loop invariant); execute stores the very object; stop/clear run nothing.",
+     trusted_base=_POOL_TB, assumptions=["one controlling thread for start/stop", "tasks raise only Exception subclasses"],
+     not_decided=["'is executed once the pool is running' in the sense of eventually (liveness)", "FIFO start order with one worker (follows from the trusted FIFO contract and the single consumer; not a separate obligation)"])
+meta("C10", explanation="constructor clauses (linear integer), lock invariant nb_threads <= max_threads at every release, un-count "
+                        "exactly once and atomically with the retire decision, safety core of the growth rule.",
+     trusted_base=_POOL_TB, assumptions=["Thread.start failures are counted by the trusted model"],
+     not_decided=["progress of mutually dependent tasks (liveness)", "'at least min_threads workers serve from start() to stop()' beyond start()'s own postcondition"])
+meta("C11", explanation="join/clear/stop/start postconditions over the trusted Queue counters.", trusted_base=_POOL_TB,
+     assumptions=[], not_decided=["stop() always returns (termination)", "wall-clock meaning of timeouts"])
+meta("C12", explanation="frame clauses of the serving path (handler-only state, server Config never written), one response per "
+                        "request, process_request -> exactly one enqueue, server_close order; precondition of BaseServer.shutdown.",
+     trusted_base=["socketserver: one handler instance per connection; BaseServer.shutdown requires serve_forever running",
+                   "http.server response primitives do not raise"] + _POOL_TB,
+     assumptions=[], not_decided=["termination of shutdown(), OS scheduling, kernel socket behaviour"])
+meta("C15", explanation="structural induction: primitives returned as the same value, sequences element-wise to lists, dicts "
+                        "value-wise with the same keys; argument unchanged on every exit (frame on the parameter).",
+     trusted_base=["jc_dump/jc_load determinism (assumed)"], assumptions=["sets are modelled positionally"], not_decided=[])
+meta("C16", explanation="sequential protocol proved on EventData/FutureResult; interleavings decided by the bounded one-preemption "
+                        "harness on the real code (see bounded_stand_ins).",
+     trusted_base=["threading.Event contract"], assumptions=["quiescent states: an outcome is stored together with the flag"],
+     not_decided=["wall-clock accuracy of timeouts", "callbacks raising BaseException"])
+meta("C17", explanation="framing clauses on send_content/do_POST (ghost wire/out logs), request target, scheme rejection, client "
+                        "reassembly (decode once), server read-loop invariant with call-site assertion.",
+     trusted_base=["UTF-8 axioms: dec(enc(s)) == s, enc is valid", "urlparse attribute functions", "rfile.read: 1..n bytes or b'' at end"],
+     assumptions=["Content-Length header, when it parses, is non-negative"], not_decided=["gzip decoding (stdlib)", "CGI handler (bounded only)"])
+meta("C18", explanation="push/pop, restoration on both exits, protected names, fixed headers first; recency by exhaustive "
+                        "enumeration (bounded).",
+     trusted_base=["contextlib.contextmanager: the body's exception is raised at the yield"],
+     assumptions=["the header stack is the same at resumption as at suspension (nested blocks restore it)"],
+     not_decided=["recency clause: bounded stand-in, not proved"])
+meta("C19", explanation="single_request postconditions over the assumed connection protocol; _run_request/_request error paths.",
+     trusted_base=["http.client.HTTPConnection/HTTPResponse assumed protocol", "xmlrpc.client.Transport.close/make_connection/parse_response"],
+     assumptions=["the recovery bound is a fact about http.client and the OS: assumed, not proved"],
+     not_decided=["'at most one further call fails' (sequence lemma over the assumed protocol)"])
+meta("C20", explanation="handler precedence, verbatim result, configuration forwarded at every depth, configured names.",
+     trusted_base=["translator callables are opaque", "exact-type lookup models isinstance against handler types"],
+     assumptions=["ignore is None or a list"], not_decided=["ignored names absent from a bean's dump: bounded stand-in on generated shapes"])
